@@ -997,16 +997,9 @@ Proof.
   - apply first_diff_none in E. subst. split; reflexivity.
 Qed.
 
-Lemma run_verdict_l : forall c, run c = verdict_ok <->
-  match c with
-  | mkCase t expect => render t = expect
-  | FitCase chunks w al expect => fit_text chunks w al = expect
-  | ResizeCase chunks n expect => concat (resize_chunks_list chunks n) = expect
-  end.
+Lemma cmp_res_ok : forall x y, cmp_res x y = verdict_ok <-> x = y.
 Proof.
-  intros [t expect|chunks w al expect|chunks n expect]; cbn [run];
-    try (rewrite cmp_lists_ok; split; intros H; [inversion H; reflexivity|subst; reflexivity]).
-  destruct (render t) as [a|e]; destruct expect as [b|e'].
+  intros [a|e] [b|e']; cbn [cmp_res].
   - rewrite cmp_lists_ok. split; congruence.
   - unfold verdict_ok. split; discriminate.
   - unfold verdict_ok. split; discriminate.
@@ -1014,6 +1007,44 @@ Proof.
     + apply err_eqb_eq in E. subst. split; reflexivity.
     + split; intros H; [discriminate|]. inversion H. subst.
       assert (E2 : err_eqb e' e' = true) by (apply err_eqb_eq; reflexivity). congruence.
+Qed.
+
+Lemma res_eqb_eq : forall x y, res_eqb x y = true <-> x = y.
+Proof.
+  intros [a|e] [b|e']; cbn [res_eqb].
+  - destruct (first_diff a b 0) as [p|] eqn:E.
+    + split; intros H; [discriminate|]. inversion H. subst.
+      assert (E2 : first_diff b b 0 = None) by (apply first_diff_none; reflexivity). congruence.
+    + apply first_diff_none in E. subst. split; reflexivity.
+  - split; discriminate.
+  - split; discriminate.
+  - rewrite err_eqb_eq. split; congruence.
+Qed.
+
+Lemma cmp_events_ok : forall a b i, cmp_events a b i = verdict_ok <-> a = b.
+Proof.
+  induction a as [|x a IH]; intros [|y b] i; cbn [cmp_events].
+  - split; reflexivity.
+  - unfold verdict_ok. split; discriminate.
+  - unfold verdict_ok. split; discriminate.
+  - destruct (res_eqb x y) eqn:E.
+    + apply res_eqb_eq in E. subst. rewrite IH. split; congruence.
+    + unfold verdict_ok. split; intros H; [discriminate|]. inversion H. subst.
+      assert (E2 : res_eqb y y = true) by (apply res_eqb_eq; reflexivity). congruence.
+Qed.
+
+Lemma run_verdict_l : forall c, run c = verdict_ok <->
+  match c with
+  | mkCase t expect => render t = expect
+  | FitCase chunks w al expect => fit_text chunks w al = expect
+  | ResizeCase chunks n expect => concat (resize_chunks_list chunks n) = expect
+  | HistCase ts ops expect => hist_events ts ops = expect
+  end.
+Proof.
+  intros [t expect|chunks w al expect|chunks n expect|ts ops expect]; cbn [run];
+    try (rewrite cmp_lists_ok; split; intros H; [inversion H; reflexivity|subst; reflexivity]).
+  - apply cmp_res_ok.
+  - apply cmp_events_ok.
 Qed.
 
 (* ------------------------------------------------------------------ a few corollaries used in Props.v *)
